@@ -4,9 +4,9 @@ CONSTANTS
   o3 = o3
   Ops = {o1, o2, o3}
   Kind <- KindSSS
-  FdOf <- FdSame
-  Dir <- DirR
-  Fds = {1, 2}
+  FdOf <- FdAll1
+  Dir <- DirRRW
+  Fds = {1}
   Eager = FALSE
 SPECIFICATION Spec
 VIEW View
